@@ -24,6 +24,7 @@ import TetlProofs.C06.MinMax
 import TetlProofs.C06.SetLoops
 import TetlProofs.C06.SetSpec
 import TetlProofs.C06.IsPerm
+import TetlProofs.C06.MergeSort
 namespace Tetl.C06.Props
 open Tetl Tetl.C06
 variable {α : Type}
@@ -777,5 +778,51 @@ example : EquivB (fun x y : Nat => x == y) ∧ [1, 2].length ≤ [2, 1, 3].lengt
 theorem isPermutation_spec_iff_perm [BEq α] [LawfulBEq α] (R T : List α) :
     Spec.isPermutation (fun x y => x == y) R T = true ↔ R.Perm T :=
   isPermutation_iff_perm R T
+
+/-! ## inplace_merge / merge_sort -/
+
+/-- inplace_merge on `[first, middle) = A`, `[middle, last) = B`: the stable merge (`List.merge`, ties: `A` first),
+    context untouched, terminates within the model's fuel.  The standard requires both runs to be sorted; the
+    equation with `List.merge` only needs the second one to be. -/
+theorem inplaceMerge_eq (lt : α → α → Bool) (P A B S : List α) (hB : Sorted lt B) :
+    inplaceMerge lt (P ++ (A ++ B) ++ S) P.length (P.length + A.length) (P.length + (A ++ B).length)
+      = .ok (P ++ Spec.merge lt A B ++ S) := by
+  unfold inplaceMerge
+  have e : P ++ (A ++ B) ++ S = P ++ A ++ B ++ S := by simp
+  rw [e, Nat.add_sub_cancel_left]
+  exact mergeSort_loop lt S P.length (P.length + (A ++ B).length) _ P A B (Nat.le_refl _)
+    (by simp only [List.length_append]; omega) hB (by simp only [List.length_append]; omega)
+example : Sorted (fun x y : Nat => decide (x < y)) [1, 2, 2] := by simp [Sorted]
+
+/-- inplace_merge of two sorted runs of a strict weak order yields a sorted permutation that keeps equivalent
+    elements in their original order (first run before second): it is the stable sort of the whole range -/
+theorem inplaceMerge_stable (lt : α → α → Bool) (hlt : StrictWeak lt) (P A B S : List α)
+    (hA : Sorted lt A) (hB : Sorted lt B) :
+    inplaceMerge lt (P ++ (A ++ B) ++ S) P.length (P.length + A.length) (P.length + (A ++ B).length)
+      = .ok (P ++ Spec.stableSort lt (A ++ B) ++ S) := by
+  rw [inplaceMerge_eq lt P A B S hB]
+  congr 3
+  refine stableSort_unique hlt _ _ (List.merge_perm_append _) (mergeSort_merge_sorted lt hlt A B hA hB) ?_
+  intro x
+  rw [show Spec.merge lt A B = List.merge A B (fun x y => !lt y x) from rfl,
+    mergeSort_merge_filter lt hlt x A B hA hB, List.filter_append]
+example : StrictWeak (fun x y : Nat => decide (x < y)) ∧ Sorted (fun x y : Nat => decide (x < y)) [1, 2, 2] ∧
+    Sorted (fun x y : Nat => decide (x < y)) [2, 3] := ⟨strictWeak_nat, by simp [Sorted], by simp [Sorted]⟩
+
+/-- merge_sort (recursive halves + inplace_merge): exactly the stable sorted permutation, the recursion never runs
+    out of fuel, context untouched -/
+theorem mergeSort_eq (lt : α → α → Bool) (hlt : StrictWeak lt) (P R S : List α) :
+    mergeSort lt (P ++ R ++ S) P.length (P.length + R.length) = .ok (P ++ Spec.stableSort lt R ++ S) :=
+  mergeSort_spec lt hlt P R S
+example : StrictWeak (fun x y : Nat => decide (x < y)) := strictWeak_nat
+
+/-- what a sorted range gives for nth_element / partial_sort at any split point `k`: both parts are sorted and no
+    element behind the split is less than one before it ([alg.nth.element], [partial.sort] postconditions) -/
+theorem sorted_split (lt : α → α → Bool) (R' : List α) (hs : Sorted lt R') (k : Nat) :
+    Sorted lt (R'.take k) ∧ Sorted lt (R'.drop k) ∧ ∀ x ∈ R'.take k, ∀ y ∈ R'.drop k, lt y x = false := by
+  unfold Sorted at *
+  rw [← List.take_append_drop k R', List.pairwise_append] at hs
+  exact hs
+example : Sorted (fun x y : Nat => decide (x < y)) [1, 2, 2] := by simp [Sorted]
 
 end Tetl.C06.Props
